@@ -291,8 +291,29 @@ def reflect_depth(ctx, S):
                    a >= i, f"analysis {a} < interpreters {i}")
 
 
+def translated_analysis(ctx):
+    """how the analysis propagates its flag, read from source on every run (harness/gen/runtime_translate.py, fail-closed): the handlers of
+    analysis/runtime.py and dialects/*/runtime.py become Gallina one-step functions proved equal to Model.Runtime's for every statement"""
+    from gen import runtime_translate
+    from vcommon import paths
+    name = ("analysis/runtime.py and dialects/{gate,init,measure,path}/runtime.py are inside the translated fragment "
+            "(generated model Gen_C09_src.v)")
+    try:
+        body = runtime_translate.generate(paths.REPO)
+    except Exception as e:
+        ctx.obligation(name, False, f"{type(e).__name__}: {e}"[:300])
+        return
+    ctx.obligation(name, True)
+    ok, log = coqrun.compile_lemma_file(ctx.bdir, "Gen_C09_src", body, timeout=300)
+    closed = log.count("Closed under the global context")
+    ctx.obligation("the translated flag propagation equals Model.Runtime's scan for every statement, nested contribution and callee "
+                   "(src_scan_stmt, src_scan_higher, src_analyze; marking statements = device_statements), closed under the global context",
+                   ok and closed >= 3, log[-600:])
+
+
 def run(ctx):
     S = tweezer_prog.harness_spec()
+    translated_analysis(ctx)
     reflect_tables(ctx, S)
     reflect_depth(ctx, S)
     operand_forms(ctx, S)
